@@ -107,9 +107,18 @@ def sensitivity(argv):
             results.append({"change": label, "property": pid, "verdict": verdict, "clauses": info})
             if not verdict.startswith("caught"):
                 missed += 1
+    last = os.path.join(verif, "selftest", "sensitivity_last.json")
     if not pats:
-        with open(os.path.join(verif, "selftest", "sensitivity_last.json"), "w") as fh:
+        with open(last, "w") as fh:
             json.dump(results, fh, indent=1)
+    elif os.path.exists(last):
+        # a partial run (name filters): its rows replace / extend those of the last full run
+        with open(last) as fh:
+            old = json.load(fh)
+        new = {r["change"]: r for r in results}
+        merged = [new.pop(r["change"], r) for r in old] + list(new.values())
+        with open(last, "w") as fh:
+            json.dump(merged, fh, indent=1)
     print(f"sensitivity: {len(work) - missed}/{len(work)} breaking changes caught by the quick check of their property")
     return 0 if missed == 0 else 1
 
